@@ -72,6 +72,26 @@ pub fn replay(input: &str, output: &str) {
             continue;
         }
         nontrivial += 1;
+        // the same triple measured again right away: every source point 0.01 .. 0.09 mm elsewhere, the targets their exact
+        // images under the same motion - the frame is that of the points given now
+        if id % 4 == 1 {
+            let ps: [[f64; 3]; 3] = std::array::from_fn(|i| std::array::from_fn(|c| p[i][c] + small.gen_range(-0.09e-3..0.09e-3) * if c == i { 1.0 } else { 0.2 }));
+            let qs2: [[f64; 3]; 3] = std::array::from_fn(|i| m.apply(&ps[i]));
+            let o7 = build(&ps, &qs2);
+            evals += 1;
+            match &o7 {
+                Outcome::Ok(f) => {
+                    let w = (0..3).map(|i| oracle::norm(&oracle::sub(&f.apply(&ps[i]), &qs2[i]))).fold(0.0, f64::max);
+                    let tol = if tri == 4 || tri == 8 { 2e-6 } else { 1e-8 } * (1.0 + oracle::norm(&qs2[0]));
+                    if f.improper() > 1e-9 || !(w <= tol) {
+                        out.put(json!({"sig": "frame3:re-measured-triple-not-mapped-to-its-images", "detail": format!("worst point {:.3e} m off; {}", w, desc), "data": desc}));
+                    }
+                }
+                other => out.put(json!({"sig": format!("frame3:re-measured-triple-rejected:{}", name(other)), "detail": desc.to_string(), "data": desc})),
+            }
+            // (and the original triple once more, so that what follows sees the same history as before)
+            let _ = build(&p, &q);
+        }
         match &o {
             Outcome::Ok(f) => {
                 let (dp, dr) = lattice::iso_max_diff(f, &m);
@@ -220,11 +240,19 @@ pub fn record(output: &str) {
             let c: Joints = std::array::from_fn(|_| r.gen_range(-1.0..1.0));
             Some((std::array::from_fn(|i| c[i] - 2.0), std::array::from_fn(|i| c[i] + 2.0), 0.0))
         } else { None };
-        let robot = Robot::new(p, inner_layers, limits);
+        let mut robot = Robot::new(p, inner_layers, limits);
+        // (one framed robot in nine is a robot with shape - tool, base, limits, bodies on every link, an empty cell: its
+        //  answers are those of its stack, in the stack's order)
+        let mut framed_kin = robot.kin.clone();
+        if k % 9 == 5 {
+            let case = crate::shape::make_case(&mut r, 2 * k + k % 2, 0, false);
+            robot = case.reference;
+            framed_kin = Arc::new(case.kws);
+        }
         // a small displacement so that the moved pose stays reachable most of the time
         let mut fr = solver::random_iso(&mut r, 0.05);
         if k % 2 == 0 { fr.r = oracle::rot(['x', 'y', 'z'][k % 3], r.gen_range(-0.1..0.1)); }
-        let framed = Frame { robot: robot.kin.clone(), frame: fr.to_na() };
+        let framed = Frame { robot: framed_kin, frame: fr.to_na() };
         let mut q: Joints = std::array::from_fn(|_| r.gen_range(-2.5..2.5));
         // (one call in four passes the very joint vector of the preceding call to another robot and frame)
         if k % 4 == 3 { q = last_q; }
